@@ -148,7 +148,6 @@ def shard_enum(shard, nshards, tier, seed, scratch):
         stats.bump('enumerated-with-line-breaks-delim-' + repr(d))
     # long lines (beyond any length threshold of a fast path / cache): every short core embedded in a line of > 64 characters,
     # at the start, at the end and followed by a final delimiter
-    pad = 'x' * 33
     for d in SINGLE[:2] + [' ', '::', ', ']:
         alphabet = (['"', d, ' ', 'x'] if d != ' ' else ['"', ' ', 'x'])
         for n in range(1, 5):
@@ -157,6 +156,7 @@ def shard_enum(shard, nshards, tier, seed, scratch):
                 if counter % nshards != shard:
                     continue
                 core = ''.join(tup)
+                pad = 'x' * (33 if counter % 3 else 261)      # beyond 32 / 64 and beyond 256 characters
                 for line in (pad + d + core + d + pad, core + d + pad + d + pad + d, pad + d + pad + d + core, core + d + pad + pad):
                     for policy in ('quoted', 'quoted_rfc'):
                         stats.evaluations += 1
@@ -170,6 +170,32 @@ def shard_enum(shard, nshards, tier, seed, scratch):
                                 seen_clauses.add(key)
                                 failures.append({'leg': 'enum-long-lines', 'clause': v.clause, 'detail': v.detail, 'case': {'kind': 'line', 'line': line, 'delim': d, 'policy': policy}})
         stats.bump('enumerated-long-lines-delim-' + repr(d))
+    # the plain policies on long lines: every short core of spaces / delimiters behind 257, 300 and 1100 ordinary characters
+    for policy, d in (('whitespace', ' '), ('simple', ','), ('simple', '::'), ('simple', ' '), ('monocolumn', '')):
+        alphabet = [' ', 'x', '"'] if policy != 'simple' or d == ' ' else [d, 'x', ' ']
+        for n in range(1, 5):
+            for tup in itertools.product(alphabet, repeat=n):
+                counter += 1
+                if counter % nshards != shard:
+                    continue
+                core = ''.join(tup)
+                for padlen in (257, 300, 1100):
+                    for line in ('x' * padlen + core + 'y', 'x' * padlen + ' ' + core, core + 'x' * padlen + core):
+                        stats.evaluations += 1
+                        stats.nontrivial_counted += 1
+                        try:
+                            check_random({'kind': 'long', 'line': line, 'delim': d, 'policy': policy})
+                        except Violation as v:
+                            key = (policy, 'long-plain', v.clause)
+                            if key not in seen_clauses:
+                                seen_clauses.add(key)
+                                det = dict(v.detail)
+                                det['line'] = repr(det.get('line'))[:120] + '... (%d characters)' % len(line)
+                                for k in ('got', 'expected', 'preserved'):
+                                    if k in det:
+                                        det[k] = repr(det[k])[-200:]
+                                failures.append({'leg': 'enum-long-plain', 'clause': v.clause, 'detail': det, 'case': {'kind': 'long', 'line': line, 'delim': d, 'policy': policy}})
+        stats.bump('enumerated-long-plain-' + policy + repr(d))
     # particular "other" characters at the first / last position of the line (BOM, no-break and exotic spaces, control characters, the
     # other quote, backslash, comment sign): for the splitter they are ordinary characters
     SPECIAL_OTHERS = ['\ufeff', '\xa0', '\t', '\x0b', '\x0c', '\u2003', '\u3000', '\x00', '\x1f', '\x85', '\\', "'", '#', '\xef\xbb\xbf', '\U0001d11e']
